@@ -196,6 +196,7 @@ type c06Plan struct {
 	rt0     bool
 	steps   []c06Step
 	det     bool // deterministic ECDSA nonces
+	drop    int  // 0: all seven exchanges; 1: no exchange on c.test; 2: none on b.test / sub.b.test (a signer for those hosts then vouches for nothing)
 }
 
 var c06Dates = []int64{1517418800, 1<<32 + 5, 1<<32 - 3600}
@@ -206,6 +207,9 @@ func (p *c06Plan) String() string {
 	fmt.Fprintf(&sb, "%s/L%d.%d/D%d", p.ver, p.layout, p.nLen, p.dateIdx)
 	if p.rt0 {
 		sb.WriteString("/rt")
+	}
+	if p.drop != 0 {
+		fmt.Fprintf(&sb, "/drop%d", p.drop)
 	}
 	for _, s := range p.steps {
 		fmt.Fprintf(&sb, "/%s.rs%d", c06Idents[s.ident].name, s.rs)
@@ -340,6 +344,9 @@ func c06Build(p *c06Plan, seed int64) *c06World {
 	}
 	for i, sp := range c06ExSpecs {
 		host := c06HostOf(sp.url)
+		if p.drop == 1 && host == "c.test" || p.drop == 2 && (host == "b.test" || host == "sub.b.test") {
+			continue
+		}
 		rs, ok := rsOf[host]
 		if !ok {
 			rs = 16
@@ -573,7 +580,7 @@ func c06Run(c c06Reporter, seed int64, p *c06Plan) *c06World {
 			signer.AuthSha256 = append([]byte{}, auth...)
 		}
 		badURL := ""
-		if st.forge == 3 {
+		if st.forge == 3 && len(covered) > 0 {
 			badURL = covered[0]
 		}
 		// the addSignature sequence
@@ -900,6 +907,8 @@ func c06RecordSizeRun(c *mc.Ctx) {
 	}
 	st := c06Step{ident: c.Free(nid, "signer")}
 	st.rs = c06RecordSizes[c.Free(len(c06RecordSizes), "record size")]
+	// a bundle without the exchanges of one host: signer B (or C) then vouches for an empty set
+	p.drop = c.Free(3, "exchanges: all / none on c.test / none on b.test")
 	st.rt = true
 	if !c.Quick() {
 		st.rt = c.Free(2, "write/read after the signer") == 1
@@ -1587,7 +1596,7 @@ func init() {
 	register(&mc.Property{
 		ID:    "C06",
 		Level: "model_checking",
-		Rule:  "record-sizes: one signer (A, B quick; all four thorough) x b1/b2 x record size {2,3,255,256,16351,16352,16353,16383,16384} x all 10 layouts of status {200,404} x body length {0,1,rs,rs+1,2rs+1} over 7 exchanges, written and re-read after signing (thorough: also not), verified at the five boundary times of the window; histories: every sequence of 1..2 (quick) / 1..3 (thorough) signers from {A (2-cert chain), B (P-384), A2 (2-cert chain), C} x record sizes {1,16,4096} x write/read before the first signer and after each signer x b1/b2 x 8/10 layouts rotating status {200,404} x payload length {0,1,rs,rs+1[,2rs+1]} over 7 exchanges x 2/3 dates incl. 2^32, with at most one deviating signer (window 7d+1s / 1h / shifted, lying auth-sha256, foreign integrity id), verified at the five boundary times of every window; bitflips: every single bit of the signatures and responses sections of 2 (quick) / 28 (thorough) signed bundles; edits: every listed in-memory edit (quick) / every pair of edits at different sites (thorough) on every covered exchange of 4 / 16 signed bundles, with and without write/read before and after.  A history is non-trivial when it has two completed signers, a refused signer or a deviation; a bit flip when it lands in certificate, authority, sig, signed, header-map or payload bytes; an edit when at least one deviation was taken.",
+		Rule:  "record-sizes: one signer (A, B quick; all four thorough) x b1/b2 x record size {2,3,255,256,16351,16352,16353,16383,16384} x all 10 layouts of status {200,404} x body length {0,1,rs,rs+1,2rs+1} over 7 exchanges (also without the exchanges of c.test / of b.test, so that a signer for those hosts vouches for an empty set), written and re-read after signing (thorough: also not), verified at the five boundary times of the window; histories: every sequence of 1..2 (quick) / 1..3 (thorough) signers from {A (2-cert chain), B (P-384), A2 (2-cert chain), C} x record sizes {1,16,4096} x write/read before the first signer and after each signer x b1/b2 x 8/10 layouts rotating status {200,404} x payload length {0,1,rs,rs+1[,2rs+1]} over 7 exchanges x 2/3 dates incl. 2^32, with at most one deviating signer (window 7d+1s / 1h / shifted, lying auth-sha256, foreign integrity id), verified at the five boundary times of every window; bitflips: every single bit of the signatures and responses sections of 2 (quick) / 28 (thorough) signed bundles; edits: every listed in-memory edit (quick) / every pair of edits at different sites (thorough) on every covered exchange of 4 / 16 signed bundles, with and without write/read before and after.  A history is non-trivial when it has two completed signers, a refused signer or a deviation; a bit flip when it lands in certificate, authority, sig, signed, header-map or payload bytes; an edit when at least one deviation was taken.",
 		Assumptions: []string{
 			"refsig/refcbor (independent signed-subset, header-map, MI and signatures-section serializers written from extensions/signatures-section.md and draft-thomson-http-mice-03) are correct; crypto/ecdsa, crypto/sha256, crypto/x509 are trusted",
 			"ECDSA itself is not explored ((r, n-s) malleability, nonce quality); bitflips/edits use a constant entropy source so that artifacts are reproducible, histories use crypto/rand",
